@@ -264,3 +264,106 @@ Proof.
     + intros E; inversion E; subst. split; assumption.
   - intros E; inversion E; subst. split; assumption.
 Qed.
+
+(** * HandleProposedHeader *)
+Definition ph_adm (p : ph) (res : N) : Prop :=
+  res = HandleProposedHeaderAccepted -> pow_ok (hd_next (ph_hdr p)) /\ vs_keys (hd_next (ph_hdr p)) <> [].
+
+Lemma K_handle_ph_loop ih ivs fuel : forall backfilled s p s' res,
+  K ih ivs s -> tinv s -> ph_bounded p -> proofs_nonempty (cp_proofs (hd_pcp (ph_hdr p))) -> ph_adm p res ->
+  handle_ph_loop fuel backfilled s p = Ok (s', res) -> K ih ivs s' /\ pref ih ivs s s'.
+Proof.
+  assert (Hbody : forall s p status proposer prev_hash prev_vs view_vs s' res,
+    K ih ivs s -> ph_bounded p ->
+    ph_check s p = PHC status proposer prev_hash prev_vs view_vs -> status = PHCheckAcceptable ->
+    (pow_ok view_vs \/ hd_height (ph_hdr p) <> v_h (k_vot s)) -> ph_adm p res ->
+    (let hd := ph_hdr p in
+      if negb (hd_ok hd) then Ok (s, HandleProposedHeaderBadBlockHash)
+      else if negb (vs_ok (hd_vals hd) && vs_ok (hd_next hd)) then Ok (s, HandleProposedHeaderBadBlockHash)
+      else if negb (valset_equal (hd_vals hd) view_vs) then Ok (s, HandleProposedHeaderBadBlockHash)
+      else
+        match proposer with
+        | None => Ok (s, HandleProposedHeaderBadSignature)
+        | Some key =>
+          if negb (verify_prop key (ph_content p) (ph_round p) (ph_sig p)) then Ok (s, HandleProposedHeaderBadSignature)
+          else if negb (hd_height hd =? k_init_h s) && negb (bytes_eqb (hd_prev hd) prev_hash)
+          then Ok (s, HandleProposedHeaderBadBlockHash)
+          else if negb (bytes_eqb (vs_pkh prev_vs) (cp_pkh (hd_pcp hd)))
+          then Ok (s, HandleProposedHeaderBadPrevCommitProofPubKeyHash)
+          else
+            let accept := bind (add_ph s p) (fun s' => Ok (s', HandleProposedHeaderAccepted)) in
+            if k_init_h s <? hd_height hd then
+              match vs_keys prev_vs with
+              | [] => Ok (s, HandleProposedHeaderBadPrevCommitProofPubKeyHash)
+              | _ =>
+                match validate_finalized (sub64 (hd_height hd) 1) (cp_round (hd_pcp hd)) (vs_keys prev_vs)
+                        (hd_prev hd) (cp_proofs (hd_pcp hd)) with
+                | (_, false) => Ok (s, HandleProposedHeaderBadPrevCommitProofDoubleSigned)
+                | (None, true) => Ok (s, HandleProposedHeaderBadPrevCommitProofSignature)
+                | (Some bits, true) =>
+                    let avail := sum_pows (vs_pows prev_vs) in
+                    bind (byz_majority avail) (fun maj =>
+                    if idx_power (vs_pows prev_vs) bits <? maj
+                    then Ok (s, HandleProposedHeaderBadPrevCommitVoteCount)
+                    else accept)
+                end
+              end
+            else accept
+        end) = Ok (s', res) ->
+    K ih ivs s' /\ pref ih ivs s s').
+  { intros s p status proposer prev_hash prev_vs view_vs s' res HK Hb Hc Hs Hvv Hadm. cbv zeta.
+    pose proof HK as (HI&_&(_&_&_&_&Xs)).
+    assert (Hsame : forall r0, Ok (s, r0) = Ok (s', res) -> K ih ivs s' /\ pref ih ivs s s')
+      by (intros r0 E; inversion E; subst; split; [exact HK|apply pref_refl; exact Xs]).
+    destruct (hd_ok (ph_hdr p)) eqn:Hok; cbn [negb]; [|apply Hsame].
+    destruct (vs_ok (hd_vals (ph_hdr p)) && vs_ok (hd_next (ph_hdr p))) eqn:Hvs; cbn [negb]; [|apply Hsame].
+    apply andb_true_iff in Hvs as [_ Hnext].
+    destruct (valset_equal (hd_vals (ph_hdr p)) view_vs) eqn:Hveq; cbn [negb]; [|apply Hsame].
+    assert (Hvals : pow_ok (hd_vals (ph_hdr p)) \/ hd_height (ph_hdr p) <> v_h (k_vot s)).
+    { destruct Hvv as [Hvv|Hvv]; [left; eapply valset_equal_pow_ok; eassumption|right; exact Hvv]. }
+    destruct proposer as [key|]; [|apply Hsame].
+    destruct (negb (verify_prop _ _ _ _)); [apply Hsame|].
+    destruct (negb (hd_height (ph_hdr p) =? k_init_h s) && negb (bytes_eqb (hd_prev (ph_hdr p)) prev_hash)) eqn:Hprev; [apply Hsame|].
+    destruct (negb (bytes_eqb (vs_pkh prev_vs) _)); [apply Hsame|].
+    assert (Hfacts : accept_facts s p).
+    { unfold accept_facts. repeat split; try assumption.
+      intros Hh Hne. destruct (ph_check_prev _ _ _ _ _ _ _ _ _ (proj1 HI) Hc Hs Hh Hne) as (ch&Hch&Hph).
+      exists ch. split; [exact Hch|].
+      apply andb_false_iff in Hprev as [Hp|Hp].
+      - apply negb_false_iff in Hp. apply N.eqb_eq in Hp. contradiction.
+      - apply negb_false_iff in Hp. apply bytes_eqb_eq in Hp. congruence. }
+    assert (Hacc : bind (add_ph s p) (fun s' => Ok (s', HandleProposedHeaderAccepted)) = Ok (s', res) -> K ih ivs s' /\ pref ih ivs s s').
+    { unfold bind. destruct (add_ph s p) eqn:Hadd; [|discriminate].
+      intros E; inversion E; subst. destruct (Hadm eq_refl) as [Hn Hk].
+      eapply K_add_ph; eassumption. }
+    destruct (k_init_h s <? _); [|exact Hacc].
+    destruct (vs_keys prev_vs); [apply Hsame|].
+    destruct (validate_finalized _ _ _ _ _) as [[bits|] [|]]; try apply Hsame.
+    unfold bind at 1. destruct (byz_majority _); [|discriminate].
+    destruct (_ <? _); [apply Hsame|exact Hacc]. }
+  induction fuel as [|f IH]; intros backfilled s p s' res HK HT Hb Hne Hadm; cbn [handle_ph_loop];
+    destruct (ph_check s p) as [status proposer prev_hash prev_vs view_vs] eqn:Hc.
+  all: pose proof HK as (HI&_&(_&_&_&_&Xs)).
+  all: assert (Hsame : forall r0, Ok (s, r0) = Ok (s', res) -> K ih ivs s' /\ pref ih ivs s s')
+         by (intros r0 E; inversion E; subst; split; [exact HK|apply pref_refl; exact Xs]).
+  all: destruct (status =? PHCheckAlreadyHaveSignature) eqn:S1; [apply Hsame|].
+  all: destruct (status =? PHCheckSignerUnrecognized) eqn:S2; [apply Hsame|].
+  all: destruct (status =? PHCheckRoundTooOld) eqn:S3; [apply Hsame|].
+  all: destruct (status =? PHCheckRoundTooFarInFuture) eqn:S4; [apply Hsame|].
+  all: destruct (status =? PHCheckNextHeight) eqn:S5.
+  - destruct backfilled; apply Hsame.
+  - eapply Hbody; try eassumption; [eapply status_acceptable; eassumption|].
+    destruct HI as (HIc&_&HIs&_).
+    eapply ph_check_view_vs; [exact HIc|exact HIs|exact (proj1 HT)|exact Hc|eapply status_acceptable; eassumption].
+  - destruct backfilled; [apply Hsame|].
+    unfold bind at 1. destruct (handle_votes KPrecommit s (vote_msg_of_pcp p)) as [[s1 r1]|] eqn:Hv; [|discriminate].
+    cbn [fst]. intros E.
+    destruct (K_handle_votes ih ivs KPrecommit s (vote_msg_of_pcp p) s1 r1 (or_intror eq_refl) HK Hne Hv) as [K1 P1].
+    assert (T1 : tinv s1).
+    { destruct (handle_votes_total KPrecommit s (vote_msg_of_pcp p) HT) as (sr&Esr&Tsr). rewrite Hv in Esr. inversion Esr; subst sr. exact Tsr. }
+    destruct (IH true s1 p s' res K1 T1 Hb Hne Hadm E) as [K2 P2].
+    split; [exact K2|eapply pref_trans; eassumption].
+  - eapply Hbody; try eassumption; [eapply status_acceptable; eassumption|].
+    destruct HI as (HIc&_&HIs&_).
+    eapply ph_check_view_vs; [exact HIc|exact HIs|exact (proj1 HT)|exact Hc|eapply status_acceptable; eassumption].
+Qed.
